@@ -587,6 +587,12 @@ class simplify_chained_calls(FuncADLNodeTransformer):
                     n.id for n in ast.walk(replacement) if isinstance(n, ast.Name)
                 )
 
+        if any(a.arg in names_in_flight for a in node.args.args):
+            # Rename the parameters in a copy of the lambda itself (respecting the scopes inside
+            # it), rather than by a substitution that would also hit names coming from arguments
+            # that have already been substituted into the body.
+            node = make_args_unique(node)
+
         new_args = copy.deepcopy(node.args)
         new_all_args = new_args.posonlyargs + new_args.args + new_args.kwonlyargs
         for extra in (new_args.vararg, new_args.kwarg):
@@ -599,14 +605,9 @@ class simplify_chained_calls(FuncADLNodeTransformer):
         ]
         with stack_frame(self._arg_stack):
             for a in new_all_args:
-                if a.arg in names_in_flight:
-                    old_name = a.arg
-                    a.arg = arg_name()
-                    self._arg_stack.define_name(old_name, ast.Name(a.arg, ast.Load()))
-                else:
-                    self._arg_stack.define_name(a.arg, ast.Name(a.arg, ast.Load()))
+                self._arg_stack.define_name(a.arg, ast.Name(a.arg, ast.Load()))
             # The body may be shared with other places of the query (an argument substituted
-            # several times): work on a copy so this visit's renaming does not leak there.
+            # several times): work on a copy so this visit does not leak there.
             new_body = self.visit(copy.deepcopy(node.body))
         return ast.Lambda(args=new_args, body=new_body)
 
